@@ -169,6 +169,89 @@ func (x *FnIndex) fieldCell(al *ssa.Alloc, fa *ssa.FieldAddr) *ssa.Alloc {
 	return c
 }
 
+// structCopySource: the struct variable b is assigned exactly once, as a whole, from a read
+// of another local struct variable a of the same function, its fields are only read, and
+// every field of a is set before that copy (a composite literal copied into a parameter
+// object): then b.f is a.f.
+func (x *FnIndex) structCopySource(b *ssa.Alloc) *ssa.Alloc {
+	if _, isStruct := b.Type().(*types.Pointer).Elem().Underlying().(*types.Struct); !isStruct {
+		return nil
+	}
+	var copySt *ssa.Store
+	for _, r := range *b.Referrers() {
+		switch t := r.(type) {
+		case *ssa.Store:
+			if t.Addr != ssa.Value(b) || copySt != nil {
+				return nil
+			}
+			copySt = t
+		case *ssa.FieldAddr:
+			for _, r2 := range *t.Referrers() {
+				switch u := r2.(type) {
+				case *ssa.UnOp:
+					if u.Op != token.MUL {
+						return nil
+					}
+				case *ssa.DebugRef:
+				default:
+					return nil // a field of the copy is written or its address used
+				}
+			}
+		case *ssa.UnOp:
+			if t.Op != token.MUL {
+				return nil
+			}
+		case *ssa.DebugRef:
+		default:
+			return nil
+		}
+	}
+	if copySt == nil {
+		return nil
+	}
+	ld, ok := copySt.Val.(*ssa.UnOp)
+	if !ok || ld.Op != token.MUL {
+		return nil
+	}
+	a, ok := ld.X.(*ssa.Alloc)
+	if !ok || a == b || a.Parent() != b.Parent() || !types.Identical(a.Type(), b.Type()) {
+		return nil
+	}
+	// a: only field stores, all before the copy; never overwritten as a whole, address not used otherwise
+	for _, r := range *a.Referrers() {
+		switch t := r.(type) {
+		case *ssa.Store:
+			if t.Addr == ssa.Value(a) {
+				return nil
+			}
+		case *ssa.FieldAddr:
+			for _, r2 := range *t.Referrers() {
+				switch u := r2.(type) {
+				case *ssa.Store:
+					if u.Addr != ssa.Value(t) || !domInstr(u, copySt) {
+						return nil
+					}
+				case *ssa.UnOp:
+					if u.Op != token.MUL {
+						return nil
+					}
+				case *ssa.DebugRef:
+				default:
+					return nil
+				}
+			}
+		case *ssa.UnOp:
+			if t.Op != token.MUL {
+				return nil
+			}
+		case *ssa.DebugRef:
+		default:
+			return nil
+		}
+	}
+	return a
+}
+
 // structEscapes: the address of the struct variable reaches code the index does
 // not see (or the struct is assigned as a whole).
 func (x *FnIndex) structEscapes(v ssa.Value, isPtr bool, d int) bool {
@@ -340,6 +423,15 @@ func (x *FnIndex) resolveAddr(v ssa.Value) ssa.Value {
 			// through a pointer to it handed to an inlined method or captured by a literal)
 			// is a variable of its own
 			if al, isAl := x.ResolveAddr(fa.X).(*ssa.Alloc); isAl && al != nil {
+				// a struct variable that is only ever a copy of another one (a parameter object
+				// handed by value to an inlined helper): its fields are the other one's fields
+				for k := 0; k < 4; k++ {
+					src := x.structCopySource(al)
+					if src == nil {
+						break
+					}
+					al = src
+				}
 				if fc := x.fieldCell(al, fa); fc != nil {
 					return fc
 				}
